@@ -16,7 +16,13 @@ HARNESSES = {
     "h_workq": {"kind": "raw"},
     "h_deque": {"kind": "raw"},
     "h_litmus": {"kind": "raw"},
+    "h_mpmc": {"kind": "raw"},
+    "h_hazard": {"kind": "raw"},
+    "h_hpseq": {"kind": "raw"},
+    "h_dwcas": {"kind": "raw"},
 }
+
+SEQ = ["-P0", "-W1", "-horizon2000000000", "-L0=2000000000", "-L=2000000000", "-ctimeout300"]
 
 
 def R(harness, *args):
@@ -58,6 +64,53 @@ CHECKS = {
             R("h_barrier", "-P2", "-DN=2", "-Dcount=3", "-Drounds=2"),
             R("h_barrier", "-P2", "-DN=2", "-Dcount=2", "-Drounds=3"),
             R("h_barrier", "-P2", "-DN=2", "-Dcount=3", "-Drounds=2", "-Dmain=1"),
+        ],
+    },
+    "C13": {
+        "title": "MPMC FIFO is a linearizable queue",
+        "level_text": "All schedules within the pre-emption bound (plus all placements of one delayed store sequence per execution under x86-TSO) of 2-3 threads pushing and popping on the real mpmc_fifo with real hazard pointers, a scan at every retirement, retired nodes really freed and poisoned (or immediately recycled into the next push to force address reuse); each complete history is checked by brute-force linearizability against a FIFO queue with the relaxation the property grants, and every node access is checked against a heap shadow.",
+        "quick": [
+            R("h_mpmc", "-P2", "-Dshape=3"),
+            R("h_mpmc", "-P2", "-Dshape=4", "-Drecycle=1"),
+            R("h_mpmc", "-P2", "-Dshape=5"),
+            R("h_mpmc", "-P1", "-Dshape=0"),
+            R("h_mpmc", "-P1", "-Dshape=1", "-Drecycle=1"),
+            R("h_mpmc", "-P1", "-Dshape=2"),
+            R("h_mpmc", "-P1", "-S1", "-Dshape=3"),
+            R("h_mpmc", "-P1", "-S1", "-Dshape=5"),
+        ],
+        "thorough": [
+            R("h_mpmc", "-P3", "-Dshape=3"),
+            R("h_mpmc", "-P3", "-Dshape=4", "-Drecycle=1"),
+            R("h_mpmc", "-P3", "-Dshape=5"),
+            R("h_mpmc", "-P2", "-Dshape=0"),
+            R("h_mpmc", "-P2", "-Dshape=1", "-Drecycle=1"),
+            R("h_mpmc", "-P2", "-Dshape=2"),
+            R("h_mpmc", "-P2", "-S1", "-Dshape=3"),
+            R("h_mpmc", "-P2", "-S1", "-Dshape=5"),
+        ],
+    },
+    "C14": {
+        "title": "hazard pointers: nothing reclaimed while protected; bounded garbage",
+        "level_text": "Three exhaustive enumerations on the real hazard_pointer.c: (a) all schedules within the pre-emption bound, and all x86-TSO placements of one delayed store sequence, of a publish/validate/read reader, a swap/retire/scan writer and a record that registers mid-run, with a ghost protected-set checked inside the reclamation callback; (b) sequentially, every assignment of hazard slots to nodes (incl. duplicates) times every retirement order for 1-3 records: scan reclaims exactly the unprotected nodes; (c) sequentially, every protection pattern for N=1..3, K=1..2 and records joining mid-run: retired_count stays below the threshold and unprotected nodes are reclaimed within threshold further retirements.",
+        "quick": [
+            R("h_hazard", "-P2", "-Dshape=2"),
+            R("h_hazard", "-P2", "-Dshape=0"),
+            R("h_hazard", "-P2", "-Dshape=1"),
+            R("h_hazard", "-P1", "-S1", "-Dshape=2"),
+            R("h_hazard", "-P1", "-S1", "-Dshape=0"),
+            R("h_hpseq", "-Dmode=0", *SEQ),
+            R("h_hpseq", "-Dmode=1", *SEQ),
+        ],
+        "thorough": [
+            R("h_hazard", "-P4", "-Dshape=2"),
+            R("h_hazard", "-P3", "-Dshape=0"),
+            R("h_hazard", "-P3", "-Dshape=1"),
+            R("h_hazard", "-P2", "-S1", "-Dshape=2", "-Dreads=3"),
+            R("h_hazard", "-P2", "-S1", "-Dshape=0"),
+            R("h_hazard", "-P2", "-S1", "-Dshape=1"),
+            R("h_hpseq", "-Dmode=0", *SEQ),
+            R("h_hpseq", "-Dmode=1", *SEQ),
         ],
     },
     "C15": {
